@@ -54,6 +54,15 @@ class Engine:
                             else:
                                 continue
                         for k, v in self.self_reads(target, cls, depth - 1, _seen, sub_param).items():
+                            out.setdefault(k, set()).update(v | {"via:" + target.name})
+                        continue
+                if cls is not None and depth > 0:
+                    owner, target = self.P.lookup_attr(cls, n.attr)
+                    if isinstance(target, FuncInfo) and any(
+                        (dotted(d) or "").split(".")[-1] in ("property", "jit_attr", "jit_attr_none", "cached_property")
+                        for d in target.node.decorator_list
+                    ):
+                        for k, v in self.self_reads(target, cls, depth - 1, _seen).items():
                             out.setdefault(k, set()).update(v)
                         continue
                 wrap = None
@@ -81,14 +90,20 @@ class Engine:
             return owner, tuple(val)
         return owner, None
 
-    def eq_spec(self, K: ClassInfo):
+    def eq_spec(self, K: ClassInfo, forK=None, _depth=0):
+        forK = forK or K
         for c in self.P.mro(K):
             if isinstance(c, ClassInfo):
                 if "__eq__" in c.methods:
                     fi = c.methods["__eq__"]
-                    reads = self.self_reads(fi, K)
+                    reads = self.self_reads(fi, forK)
                     return {"kind": "custom", "fields": set(reads), "wrappers": reads, "via": fi, "owner": c}
                 if "__eq__" in c.assigns:
+                    d = dotted(c.assigns["__eq__"])
+                    if d and d.endswith(".__eq__") and _depth < 4:
+                        tgt = self.P.resolve_name(c.module, d[: -len(".__eq__")])
+                        if isinstance(tgt, ClassInfo):
+                            return self.eq_spec(tgt, forK, _depth + 1)
                     return {"kind": "unknown", "fields": set(), "wrappers": {}, "via": None, "owner": c}
                 if "__cmp__" in c.methods and any(
                     "inject_richcmp_methods_from_cmp" in A.unparse(s) for s in c.node.body if isinstance(s, ast.Expr)
@@ -100,7 +115,7 @@ class Engine:
                         reads = self.self_reads(fi, K)
                         return {"kind": "custom", "fields": set(reads), "wrappers": reads, "via": fi, "owner": c}
             elif _is_generic_eq(c):
-                owner, fields = self.attr_comparison(K)
+                owner, fields = self.attr_comparison(forK)
                 if fields is None:
                     return {"kind": "unknown", "fields": set(), "wrappers": {}, "via": None, "owner": owner}
                 return {"kind": "fields", "fields": set(fields), "wrappers": {f: set() for f in fields}, "via": None, "owner": owner}
@@ -113,6 +128,17 @@ class Engine:
                 if "__hash__" in c.methods:
                     fi = c.methods["__hash__"]
                     reads = self.self_reads(fi, K)
+                    if "__attr_comparison__" in reads:
+                        # idiom: hash(tuple(getattr(self, x) for x in self.__attr_comparison__ ...))
+                        _, fields = self.attr_comparison(K)
+                        if fields is None:
+                            return {"kind": "unknown", "fields": set(), "wrappers": {}, "via": fi, "owner": c}
+                        skip = {x for x in A.str_constants(fi.node)}
+                        fs = {f for f in fields if f not in skip}
+                        extra = {k: v for k, v in reads.items() if k != "__attr_comparison__"}
+                        w = {f: set() for f in fs}
+                        w.update(extra)
+                        return {"kind": "fields", "fields": set(w), "wrappers": w, "via": fi, "owner": c, "over_attr_comparison": True}
                     return {"kind": "fields", "fields": set(reads), "wrappers": reads, "via": fi, "owner": c}
                 if "__hash__" in c.assigns:
                     return self._hash_alias(K, c, c.assigns["__hash__"], _depth)
